@@ -165,6 +165,68 @@ def event_level(srv, part, zone, rng, n):
         part.count("event_occurrences_compared", k)
 
 
+def rdate_level(srv, part, zone, rng, n):
+    """events whose occurrences are RDATEs: dates (which take DTSTART's wall-clock time in DTSTART's zone), local times with
+    the TZID, and UTC values; DTSTART is put within a day of a transition half of the time"""
+    z = zoneinfo.ZoneInfo(zone)
+    trs = transitions(zone)
+    for _ in range(n):
+        if trs and rng.random() < 0.6:
+            t = rng.choice(trs)
+            ds = (t.replace(tzinfo=UTC).astimezone(z).replace(tzinfo=None)
+                  + D.timedelta(seconds=rng.choice([-1, 1]) * rng.choice([60, 1800, 3600, 3 * 3600, 7 * 3600, 11 * 3600, 20 * 3600])))
+            near = "near-transition"
+        else:
+            ds = D.datetime(rng.randint(1903, 2030), rng.randint(1, 12), rng.randint(1, 28), rng.randint(0, 23), rng.choice([0, 30]), 0)
+            near = "plain"
+        if not (LO + D.timedelta(days=2) <= ds <= HI - D.timedelta(days=400)) or len(local_candidates(z, ds)) != 1:
+            continue
+        exp = set()
+        lines = []
+        forms = set()
+        for _ in range(rng.choice([1, 2, 3])):
+            form = rng.choice(["date", "date", "local", "utc"])
+            vals = []
+            for _ in range(rng.randint(1, 4)):
+                d = ds.date() + D.timedelta(days=rng.choice([1, 7, 30, 91, 182, 240, rng.randint(1, 365)]))
+                if form == "date":
+                    l = D.datetime.combine(d, ds.time())
+                    c = local_candidates(z, l)
+                    if len(c) == 1:
+                        vals.append(d.strftime("%Y%m%d"))
+                        exp.add(c[0])
+                elif form == "local":
+                    l = D.datetime.combine(d, D.time(rng.randint(0, 23), rng.choice([0, 30]), 0))
+                    c = local_candidates(z, l)
+                    if len(c) == 1:
+                        vals.append(l.strftime("%Y%m%dT%H%M%S"))
+                        exp.add(c[0])
+                else:
+                    u = D.datetime.combine(d, D.time(rng.randint(0, 23), rng.choice([0, 30]), 0))
+                    vals.append(u.strftime("%Y%m%dT%H%M%SZ"))
+                    exp.add(u)
+            if vals:
+                forms.add(form)
+                lines.append({"date": "RDATE;VALUE=DATE:", "local": "RDATE;TZID=%s:" % zone, "utc": "RDATE:"}[form] + ",".join(vals))
+        if not lines:
+            continue
+        text = ("BEGIN:VCALENDAR\nBEGIN:VEVENT\nUID:c07r@verif\nSUMMARY:x\nDTSTART;TZID=%s:%s\n%s\nEND:VEVENT\nEND:VCALENDAR\n"
+                % (zone, ds.strftime("%Y%m%dT%H%M%S"), "\n".join(lines)))
+        got, ended, _ = parse_occ(srv.case("n=%d budget=10000" % (len(exp) + 3), text))
+        part.evaluations += 1
+        if any(isinstance(x, tuple) for x in got):
+            part.violation("rdate/invalid-instant", {"input": text, "summary": "invalid instant among the RDATE occurrences"})
+            continue
+        part.count("rdate_occurrences_compared", len(exp))
+        part.nontrivial.add("rdate/%s/%s" % (near, "+".join(sorted(forms))))
+        if sorted(exp) != got:
+            bad = sorted(set(got) ^ exp)[0]
+            part.violation("rdate/%s/%s" % (near, "+".join(sorted(forms))),
+                           {"input": text, "observed": [str(x) for x in got], "expected": [str(x) for x in sorted(exp)],
+                            "summary": "%s DTSTART %s: RDATE occurrences differ from the stated wall-clock times, first at %s UTC"
+                            % (zone, ds, bad)})
+
+
 def worker(args):
     root, seed, tier, wid, nw, zones = args
     part = Part()
@@ -179,6 +241,7 @@ def worker(args):
                 try:
                     func_level(lib, part, zone, rng, dense=(tier != "quick"))
                     event_level(srv, part, zone, rng, 8 if tier == "quick" else 20)
+                    rdate_level(srv, part, zone, rng, 6 if tier == "quick" else 20)
                     part.count("zones")
                 except HarnessCrash as e:
                     part.violation("crash-" + e.kind, {"input": zone, "summary": e.detail[:600]})
